@@ -21,6 +21,8 @@ KOfInt(g, n) == IF g = "G1" THEN FqInt(n) ELSE <<FqInt(n), Zero>>
 KHalf(g) == KInv(g, KOfInt(g, 2))
 KSqrtOpt(g, a) == GSqrt(g, a)                     \* <<exists, root>>
 KCbrt(g, a) == IF g = "G1" THEN Cbrt1(a) ELSE Cbrt2(a)
+GCoefB(g) == IF g = "G1" THEN Four ELSE <<Four, Four>>
+SixthRoot(g, a) == LET c == KCbrt(g, a) IN IF ~c[1] THEN <<FALSE, KZero(g)>> ELSE KSqrtOpt(g, c[2])
 Rep(g, P, l) == LET l2 == KSqr(g, l) IN <<KMul(g, P[1], l2), KMul(g, P[2], KMul(g, l2, l)), l>>
 
 (* <<name, <<exists, l>>>> for every target *)
@@ -36,6 +38,8 @@ Targets(g, P) ==
         <<"X=Z",    <<TRUE, KInv(g, x)>> >>,
         <<"Y=Z",    KSqrtOpt(g, KInv(g, y))>>,
         <<"X=Y",    <<TRUE, KMul(g, x, KInv(g, y))>> >>,
+        \* the doubling formula gives X([2]P) = l^8 (9x^4 - 8xy^2): equal to X(P) = l^2 x for l^6 = 1/(x^3 - 8b)
+        <<"X(2P)=X(P)", SixthRoot(g, KInv(g, KSub(g, KMul(g, KSqr(g, x), x), KMul(g, KOfInt(g, 8), GCoefB(g)))))>>,
         <<"Z=-1",   <<TRUE, m1>> >>,
         <<"Z=2",    <<TRUE, KOfInt(g, 2)>> >> >>
 RepsOf(g, P) == LET ts == TLCEval(Targets(g, P)) IN
@@ -49,9 +53,19 @@ NPts == IF Thorough THEN 5 ELSE 3
 AllRepsOf(g) == FlattenSeq([i \in 1..NPts |-> LET P == (IF i = 3 /\ ~Thorough THEN Pts(g)[4] ELSE Pts(g)[i])
                                                  rs == TLCEval(RepsOf(g, P))
                                              IN [k \in 1..Len(rs) |-> <<rs[k][1], rs[k][2], P>>]])
+(* the sixth-root target exists for one point in six: search the multiples of the generator for it *)
+RECURSIVE SixthReps(_,_,_,_)
+SixthReps(g, k, n, fuel) ==
+  IF n = 0 \/ fuel = 0 THEN <<>>
+  ELSE LET P == GMul(g, GGen(g), FromInt(k))
+           x == P[1]
+           s == SixthRoot(g, KInv(g, KSub(g, KMul(g, KSqr(g, x), x), KMul(g, KOfInt(g, 8), GCoefB(g)))))
+       IN IF s[1] /\ s[2] # KZero(g)
+          THEN << <<"X(2P)=X(P)", Rep(g, P, s[2]), P>> >> \o SixthReps(g, k + 1, n - 1, fuel - 1)
+          ELSE SixthReps(g, k + 1, n, fuel - 1)
 (* zero-arity: evaluated once *)
-Reps1 == TLCEval(AllRepsOf("G1"))
-Reps2 == TLCEval(AllRepsOf("G2"))
+Reps1 == TLCEval(AllRepsOf("G1") \o SixthReps("G1", 3, 2, 30))
+Reps2 == TLCEval(AllRepsOf("G2") \o SixthReps("G2", 3, 1, 30))
 AllReps(g) == IF g = "G1" THEN Reps1 ELSE Reps2
 ASSUME \A g \in {"G1", "G2"} : \A i \in 1..Len(AllReps(g)) : GRep(g, AllReps(g)[i][2], AllReps(g)[i][3])
 
